@@ -471,6 +471,20 @@ func runC02(p *core.Prog, r *core.Report, tier string) {
 	}
 	r.Floor("C02.j job function invocations in the job loops", nRun, 4)
 
+	// ---- (k) cancelling by prefix reaches every matching job: the loops of CancelJobs are only left by exhaustion
+	// (a job found already finalised must not end the cancellation of the others) ----
+	nCJ := 0
+	for _, f := range fns {
+		if f.Name() != "CancelJobs" || f.Parent() != nil {
+			continue
+		}
+		for _, l := range p.Loops(f) {
+			nCJ++
+			noEarlyExit(p, r, "C02.k", l, "cancellation of all jobs with the prefix")
+		}
+	}
+	r.Floor("C02.k loops of CancelJobs", nCJ, 2)
+
 	// ---- (i) a name is claimed atomically ----
 	nAtomic := 0
 	for _, f := range fns {
